@@ -482,3 +482,38 @@ def ser_with_sym(ctx):
     ctx.check(s_ok and d_ok and coll, 'btreemap_as_vec', sb, 'Vec<(K,V)> written from every entry and read back into a map',
               'btreemap_as_vec: serialize %s a Vec of pairs of every entry, deserialize %s a Vec<(K, V)>%s'
               % ('emits' if s_ok else 'does NOT emit', 'reads' if d_ok else 'does NOT read', '' if coll else ' and does not collect it'))
+
+
+@rule('SER-ENUM-EXT', {
+    'C19': 'op enums must use serde\'s externally tagged representation: internally tagged / adjacent / untagged enums are decoded '
+           'through serde\'s buffered Content, which turns map keys into strings, so a VClock with integer actors no longer deserialises',
+}, floor=6)
+def ser_enum_ext(ctx):
+    """Every enum among the state/op types is serialised variant by variant with serialize_*_variant (externally tagged)."""
+    facts = ctx.facts
+    for adt in STATE_OP_ADTS:
+        a = facts.adts.get(adt)
+        if a is None or a['kind'] != 'enum':
+            continue
+        b = facts.trait_impl_method(adt, 'Serialize', 'serialize')
+        short = adt.split('crdts::')[-1]
+        if b is None:
+            ctx.shape(short, None, 'derived Serialize body of %s not found' % adt, fnkey=adt)
+            continue
+        it = interp(facts, b)
+        seen = set()
+        plain = []
+        for c in it.calls.values():
+            n = call_name(c.term) or ''
+            if n.endswith('_variant'):
+                for a2 in c.args:
+                    if a2.val[0] == 'const' and isinstance(a2.val[1], str):
+                        seen.add(a2.val[1].strip('"'))
+            elif n in ('serialize_struct', 'serialize_map', 'serialize_tuple', 'serialize_seq'):
+                plain.append(n)
+        names = [v['name'] for v in a['variants']]
+        missing = [v for v in names if v not in seen]
+        ctx.check(not missing and not plain, short, b, 'externally tagged (%d variants)' % len(names),
+                  '%s is not serialised as an externally tagged enum (variants without serialize_*_variant: %s%s): its ops are decoded through '
+                  'serde\'s buffered representation, which breaks maps with non-string keys such as VClock<u64>'
+                  % (adt, missing, '; uses ' + plain[0] if plain else ''), fnkey=adt)
